@@ -135,6 +135,22 @@ Theorem C04_hier_element_converts : forall uri prefix kw n h t k root_meta att_m
 Proof. exact hier_element_converts. Qed.
 Print Assumptions C04_hier_element_converts.
 
+(* the same for heading and line given as units - plain characters and backslash escapes mixed *)
+Theorem C04_hier_element_converts_units : forall uri prefix kw n uh ut k root_meta att_meta,
+  assoc_str uri meta_templates = Some (root_meta, att_meta) ->
+  In kw hier_keywords ->
+  num_ok n -> Forall (fun c => c <> TAB) n -> clean_num n <> [] -> valid_text n = true ->
+  written_text uh -> written_text ut ->
+  let L := encode ut ++ NL :: 15 :: [NL] in
+  none_starts block_lits L = true -> p_safe L = true -> starts_with SUBH L = false -> no_ctl_start (encode ut) = true ->
+  (1 <= k)%nat ->
+  let tag := hier_name kw in
+  let cand := candidate prefix tag (clean_num n) in
+  convert uri (of_string "hier_element") prefix (kw ++ 32 :: n ++ 32 :: 45 :: 32 :: encode uh ++ NL :: repeat SP k ++ encode ut ++ [NL])
+  = OkR (hier_x tag [(EID, cand)] [(EID, cand ++ DUSCORE ++ P1)] n (decode uh) (decode ut)).
+Proof. exact hier_element_converts_units. Qed.
+Print Assumptions C04_hier_element_converts_units.
+
 (* the instance the theorem predicts, evaluated: a synonym keyword, a num with punctuation, three blanks of indentation *)
 Example C04_hier_element_converts_example :
   convert (of_string "/akn/za/act/2009/1") (of_string "hier_element") (of_string "chp_2")
